@@ -108,6 +108,9 @@ impl BuildOptimiser {
     }
 
     pub fn build(&self) -> MCOptimiser {
+        // An inner loop has at least one step, which avoids dividing by zero when finding the
+        // number of loops, and no more steps than the total.
+        let inner_steps = u64::max(1, u64::min(self.inner_steps, self.steps));
         let kt_ratio = match (self.kt_ratio, self.kt_finish) {
             (Some(ratio), _) => 1. - ratio,
             (None, Some(finish)) => f64::powf(finish / self.kt_start, 1. / self.steps as f64),
@@ -124,7 +127,7 @@ impl BuildOptimiser {
             kt_ratio,
             max_step_size: self.max_step_size,
             steps: self.steps,
-            inner_steps: u64::min(self.inner_steps, self.steps),
+            inner_steps,
             seed,
             convergence: self.convergence,
         }
